@@ -239,6 +239,7 @@ fn scenario(acts: &[Act], bound: Option<usize>) -> u64 {
 
 
 static FIRST_PANIC: std::sync::Mutex<Option<String>> = std::sync::Mutex::new(None);
+static CURRENT: std::sync::Mutex<String> = std::sync::Mutex::new(String::new());
 
 fn parse_act(s: &str) -> Act {
     *ACTS.iter().find(|a| format!("{a:?}") == s.trim()).unwrap_or_else(|| panic!("MACHINERY unknown act {s}"))
@@ -249,10 +250,23 @@ fn main() {
     let tier = args.get(1).map(|s| s.as_str()).unwrap_or("quick").to_string();
     let out = args.get(2).cloned().unwrap_or_else(|| "/verif/loomjob/target/c12_loom.json".into());
     let t0 = std::time::Instant::now();
-    std::panic::set_hook(Box::new(|info| {
-        let mut g = FIRST_PANIC.lock().unwrap();
+    // The first panic of a scenario is the finding; a second panic while unwinding (typical when the
+    // subject touches a freed reference count again in a destructor) aborts the process, so the first
+    // one is written to the output file at once. A normal end overwrites the file.
+    let hook_out = if tier == "--scenario" { args.get(3).cloned().unwrap_or_else(|| out.clone()) } else { out.clone() };
+    std::panic::set_hook(Box::new(move |info| {
+        let mut g = FIRST_PANIC.lock().unwrap_or_else(|e| e.into_inner());
         if g.is_none() {
-            *g = Some(format!("{info}"));
+            let msg = format!("{info}");
+            let sc = CURRENT.lock().map(|c| c.clone()).unwrap_or_default();
+            let j = serde_json::json!({
+                "failed_scenario": sc,
+                "message": msg,
+                "machinery": msg.contains("MACHINERY"),
+                "recorded_by": "panic hook (the process may have aborted afterwards)",
+            });
+            let _ = std::fs::write(&hook_out, serde_json::to_string_pretty(&j).unwrap_or_default());
+            *g = Some(msg);
         }
     }));
     let mut scen: Vec<(Vec<Act>, Option<usize>)> = vec![];
@@ -297,6 +311,7 @@ fn main() {
     let mut total = 0u64;
     let mut per = vec![];
     for (acts, bound) in &scen {
+        *CURRENT.lock().unwrap() = acts.iter().map(|a| format!("{a:?}")).collect::<Vec<_>>().join(",");
         let r = std::panic::catch_unwind(std::panic::AssertUnwindSafe(|| scenario(acts, *bound)));
         match r {
             Ok(n) => {
